@@ -23,10 +23,21 @@ type scanRow struct {
 	pos      ssa.Instruction
 }
 
-var scanSecondRunes = []rune{'=', '~', '>', '<', '-', '*', '/', ':', '5', 'x', ' ', 0, '!', '.', '"'}
+var scanSecondRunesBase = []rune{'=', '~', '>', '<', '-', '*', '/', ':', '5', 'x', ' ', 0, '!', '.', '"'}
 
-func scanCandidates() []rune {
+func (p *Program) scanSecondRunes() []rune {
+	out := append([]rune{}, scanSecondRunesBase...)
+	if e := p.eofRune(); e != 0 {
+		out = append(out, e)
+	}
+	return out
+}
+
+func (p *Program) scanCandidates() []rune {
 	var out []rune
+	if e := p.eofRune(); e < 0 || e >= 128 {
+		out = append(out, e)
+	}
 	for c := rune(0); c < 128; c++ {
 		out = append(out, c)
 	}
@@ -117,13 +128,13 @@ func (p *Program) scanTable() ([]scanRow, string) {
 		}
 		return row
 	}
-	for _, c0 := range scanCandidates() {
+	for _, c0 := range p.scanCandidates() {
 		first := runOne(c0, 'x')
 		if !first.twoRunes {
 			rows = append(rows, first)
 			continue
 		}
-		for _, c1 := range scanSecondRunes {
+		for _, c1 := range p.scanSecondRunes() {
 			rows = append(rows, runOne(c0, c1))
 		}
 	}
